@@ -7,7 +7,7 @@ import sys, os, shutil, subprocess, tempfile, argparse
 ROOT = os.path.dirname(os.path.dirname(os.path.abspath(__file__)))
 
 
-def run_mutant(prop, fname, old, new, tier='quick', count=1, quiet=False):
+def run_mutant(prop, fname, old, new, tier='quick', count=1, quiet=False, env_extra=None):
     tmp = tempfile.mkdtemp(prefix='pygmut_')
     try:
         shutil.copytree('/repo/src', os.path.join(tmp, 'src'))
@@ -18,6 +18,7 @@ def run_mutant(prop, fname, old, new, tier='quick', count=1, quiet=False):
         s = s.replace(old, new, count)
         open(p, 'w').write(s)
         env = dict(os.environ, PYG_REPO=tmp)
+        env.update(env_extra or {})
         r = subprocess.run(['python3-vt', os.path.join(ROOT, 'checks', 'run.py'), 'check', prop, '--tier', tier], capture_output=True, text=True, env=env,
                            cwd=ROOT)
         return r.returncode, r.stdout + r.stderr[-2000:]
